@@ -1,6 +1,6 @@
 TITLE = "slide_in inserts without overwriting: later content shifts by its length"
 IMPORTS = ["From Coq Require Import ZArith List Bool.",
-           "From MV Require Import Base.Res Model.EventTree Model.TreeOps Proofs.TreeLemmas Proofs.SplitBase Proofs.Squash Proofs.Slide.",
+           "From MV Require Import Base.Res Model.EventTree Model.TreeOps Proofs.TreeLemmas Proofs.SplitBase Proofs.Squash Proofs.Slide Proofs.NoAttr.",
            "Import ListNotations.", "Open Scope Z_scope."]
 ENTRIES = [
  ("C06_sequence", "slide_in_seq", "into a sequence at 0 <= start <= duration: the duration grows by exactly d; everything before start unchanged, the new event exactly at start, everything from start onwards later by d with content and order intact (a child under start is divided, not shortened: at_seq (x - d) of the original)"),
@@ -9,8 +9,10 @@ ENTRIES = [
  ("C06_negative_start_rejected", "slide_in_negative", "a negative start is rejected"),
  ("C06_start_beyond_duration_rejected", "slide_in_beyond", "a start beyond the duration is rejected"),
  ("C06_leaf_child_rejected", "slide_in_leaf_voice", "leaves as children are rejected"),
+ ("C06_attribute_error_only_from_leaf", "slide_in_attribute_error_only_from_leaf", "the error protocol Concurrence.slide_in relies on when it catches AttributeError around the call on a child: in the model that error is the answer of a leaf and of nothing else"),
 ]
-EXTRA = """Print sl_post.
+EXTRA = """Print na. Print is_leaf.
+Print sl_post.
 
 Example C06_example :
   let e := Seq meta0 [Leaf 10 1; Seq meta0 [Leaf 5 2; Leaf 10 3]; Leaf 10 5] in
